@@ -122,7 +122,7 @@ def check_one(rep, binary, label, data, cmdname, args, env=None, wrapper=None):
 
 
 def build_inputs(rnd, seed, tier):
-    n = 120 if tier == "quick" else 2500
+    n = 120 if tier == "quick" else 1200
     docs = climon.gen_lines("gen-json", seed + 19, n)
     inputs = []
     for d in docs:
